@@ -127,6 +127,4 @@ theorem searchLoop_abort (mark : Nat) (backup : Text) (backupPos : Nat) (hbp : b
       refine wp_refreshLine S U cfg (fun s4 hc4 => ?_) (fun _ _ _ => trivial)
       simp only [wp_changesEnd, wp_pure]
       intro h; cases h
-    · simp only [wp_bind, wp_changesEnd, wp_pure]
-      intro h; cases h
 end Rl
